@@ -187,6 +187,10 @@ impl CelValue {
         CelError::Runtime(msg.to_owned()).into()
     }
 
+    fn overflow_error(op: &str) -> CelValue {
+        CelValue::value_error(&format!("Integer overflow in '{}'", op))
+    }
+
     pub fn binding_error(sym_name: &str) -> CelValue {
         CelError::Binding {
             symbol: sym_name.to_owned(),
@@ -1250,12 +1254,18 @@ impl Add for CelValue {
             match lhs {
                 CelValue::Int(val1) => {
                     if let CelValue::Int(val2) = rhs {
-                        return CelValue::from(val1 + val2);
+                        return match val1.checked_add(val2) {
+                            Some(v) => CelValue::from(v),
+                            None => CelValue::overflow_error("+"),
+                        };
                     }
                 }
                 CelValue::UInt(val1) => {
                     if let CelValue::UInt(val2) = rhs {
-                        return CelValue::from(val1 + val2);
+                        return match val1.checked_add(val2) {
+                            Some(v) => CelValue::from(v),
+                            None => CelValue::overflow_error("+"),
+                        };
                     }
                 }
                 CelValue::Float(val1) => {
@@ -1322,12 +1332,18 @@ impl Sub for CelValue {
             match lhs {
                 CelValue::Int(val1) => {
                     if let CelValue::Int(val2) = rhs {
-                        return CelValue::from(val1 - val2);
+                        return match val1.checked_sub(val2) {
+                            Some(v) => CelValue::from(v),
+                            None => CelValue::overflow_error("-"),
+                        };
                     }
                 }
                 CelValue::UInt(val1) => {
                     if let CelValue::UInt(val2) = rhs {
-                        return CelValue::from(val1 - val2);
+                        return match val1.checked_sub(val2) {
+                            Some(v) => CelValue::from(v),
+                            None => CelValue::overflow_error("-"),
+                        };
                     }
                 }
                 CelValue::Float(val1) => {
@@ -1373,12 +1389,18 @@ impl Mul for CelValue {
             match lhs {
                 CelValue::Int(val1) => {
                     if let CelValue::Int(val2) = rhs {
-                        return CelValue::from(val1 * val2);
+                        return match val1.checked_mul(val2) {
+                            Some(v) => CelValue::from(v),
+                            None => CelValue::overflow_error("*"),
+                        };
                     }
                 }
                 CelValue::UInt(val1) => {
                     if let CelValue::UInt(val2) = rhs {
-                        return CelValue::from(val1 * val2);
+                        return match val1.checked_mul(val2) {
+                            Some(v) => CelValue::from(v),
+                            None => CelValue::overflow_error("*"),
+                        };
                     }
                 }
                 CelValue::Float(val1) => {
@@ -1418,7 +1440,11 @@ impl Div for CelValue {
                             return CelValue::from_err(CelError::DivideByZero);
                         }
 
-                        return CelValue::from(val1 / val2);
+                        // i64::MIN / -1 is the only quotient that does not fit
+                        return match val1.checked_div(val2) {
+                            Some(v) => CelValue::from(v),
+                            None => CelValue::overflow_error("/"),
+                        };
                     }
                 }
                 CelValue::UInt(val1) => {
@@ -1463,11 +1489,20 @@ impl Rem for CelValue {
             match lhs {
                 CelValue::Int(val1) => {
                     if let CelValue::Int(val2) = rhs {
-                        return CelValue::from(val1 % val2);
+                        if val2 == 0 {
+                            return CelValue::from_err(CelError::DivideByZero);
+                        }
+
+                        // wrapping_rem: i64::MIN % -1 is 0, only the hardware op overflows
+                        return CelValue::from(val1.wrapping_rem(val2));
                     }
                 }
                 CelValue::UInt(val1) => {
                     if let CelValue::UInt(val2) = rhs {
+                        if val2 == 0 {
+                            return CelValue::from_err(CelError::DivideByZero);
+                        }
+
                         return CelValue::from(val1 % val2);
                     }
                 }
@@ -1494,7 +1529,10 @@ impl Neg for CelValue {
 
         match self {
             CelValue::Int(val1) => {
-                return CelValue::from(-val1);
+                return match val1.checked_neg() {
+                    Some(v) => CelValue::from(v),
+                    None => CelValue::overflow_error("-"),
+                };
             }
             CelValue::Float(val1) => {
                 return CelValue::from(-val1);
